@@ -506,4 +506,68 @@ theorem cells_ok (rows : List WRow) (hR : RowsOK rows) :
     obtain ⟨_, _, e3⟩ := (sameLine_iff k c).mp hs
     rw [e3]; exact (hck c hcm).2
 
+/-! ### the whole file, read back by the book: every channel is an arrangement of the rows' objects -/
+
+/-- the row is visible in the file (a `00` id is the format's "nothing here") and lies on channel `ch` -/
+def rowShown (ch : Bytes) (r : WRow) : Bool := decide (r.channel = ch) && decide (r.value ≠ ['0', '0'])
+
+/-- the by-the-book object of a row: its id at its bare position -/
+def objOfRow (r : WRow) : Obj := ⟨posOf r.snap, r.value⟩
+
+theorem filter_map_through {α β γ δ} (f : α → γ) (g : β → γ) (P : γ → Bool) (G : γ → δ) (as : List α) (bs : List β)
+    (h : as.map f = bs.map g) :
+    (as.filter (fun a => P (f a))).map (fun a => G (f a)) = (bs.filter (fun b => P (g b))).map (fun b => G (g b)) := by
+  have e1 : (as.filter (fun a => P (f a))).map (fun a => G (f a)) = ((as.map f).filter P).map G := by
+    rw [List.filter_map, List.map_map]; rfl
+  have e2 : (bs.filter (fun b => P (g b))).map (fun b => G (g b)) = ((bs.map g).filter P).map G := by
+    rw [List.filter_map, List.map_map]; rfl
+  rw [e1, e2, h]
+
+/-- **The written file gives every channel an arrangement of exactly the rows' objects** — header lines included.
+For renderable rows (`RowsOK`) and header-like header lines: the whole file `header ++ [""] ++ data lines` parses;
+its header dict is the one of the header lines alone; every data line is well-formed and lies on the channel of a
+row; and for every channel `ch` the by-the-book objects of the file's lines are — up to order, with multiplicities —
+the rows of that channel (id ≠ `00`) at their positions. -/
+theorem written_file_objects (rows : List WRow) (hR : RowsOK rows) (hl : List Bytes) (hh : ∀ l ∈ hl, HeaderLike l) :
+    ∃ H notes, parseDoc (hl ++ [[]] ++ linesOfCells (cellsOfRows rows)) = .ok ⟨H, notes⟩ ∧
+      foldlE docStep ⟨[], []⟩ (hl ++ [[]]) = .ok ⟨H, []⟩ ∧
+      (∀ d ∈ notes, (∃ m, parseNat d.1 = some m) ∧ (∃ ps, evenPairs d.2.2 = some ps) ∧ ∃ r ∈ rows, d.2.1 = r.channel) ∧
+      ∀ ch, (laneObjs notes ch).Perm ((rows.filter (rowShown ch)).map objOfRow) := by
+  obtain ⟨hcell, hslots, hobj⟩ := cells_ok rows hR
+  have hh' : ∀ l ∈ hl ++ [[]], HeaderLike l := by
+    intro l hlm
+    rcases List.mem_append.mp hlm with h | h
+    · exact hh l h
+    · simp only [List.mem_singleton] at h; exact Or.inl h
+  obtain ⟨H, hH⟩ := foldlE_docStep_header (hl ++ [[]]) hh' ⟨[], []⟩
+  obtain ⟨notes, hN, hwfN, hperm⟩ := written_objects_perm (cellsOfRows rows) hcell hslots ⟨H, []⟩
+  refine ⟨H, notes, ?_, hH, ?_, ?_⟩
+  · unfold parseDoc
+    rw [foldlE_append docStep _ _ _ _ hH, hN]
+    simp
+  · intro d hd
+    obtain ⟨h1, h2, k, hk, hkc⟩ := hwfN d hd
+    refine ⟨h1, h2, ?_⟩
+    have hkm := (lineKeys_cover (cellsOfRows rows)).1 k hk
+    have : cellObj k ∈ (cellsOfRows rows).map cellObj := List.mem_map_of_mem hkm
+    rw [hobj] at this
+    obtain ⟨r, hr, hre⟩ := List.mem_map.mp this
+    refine ⟨r, hr, ?_⟩
+    rw [hkc]
+    have := congrArg (·.1) hre
+    simpa [rowObj, cellObj] using this.symm
+  · intro ch
+    refine (hperm ch).trans ?_
+    have := filter_map_through cellObj rowObj
+      (fun o => decide (o.1 = ch) && decide (o.2.2.2 ≠ ['0', '0']))
+      (fun o => (⟨⟨((o.2.1.toNat : Nat) : Int), o.2.2.1, none⟩, o.2.2.2⟩ : Obj)) (cellsOfRows rows) rows hobj
+    have e : ((cellsOfRows rows).filter (cellShown ch)).map objOfCell =
+        (rows.filter (rowShown ch)).map (fun b => (⟨⟨(((rowObj b).2.1.toNat : Nat) : Int), (rowObj b).2.2.1, none⟩, (rowObj b).2.2.2⟩ : Obj)) := this
+    rw [e]
+    apply List.Perm.of_eq
+    apply List.map_congr_left
+    intro r hr
+    have hm := (hR.meas r (List.mem_filter.mp hr).1).1
+    simp only [rowObj, objOfRow, posOf, Int.toNat_of_nonneg hm]
+
 end Reamber.BMS
